@@ -39,6 +39,21 @@ type c09Response struct {
 	Raw      string
 }
 
+const c09LeadAsset = "LEADASSET"
+
+func c09LeadTS(i int) string { return fmt.Sprintf("199%d-02-03T04:05:06Z", i) }
+
+// c09Snapshot is the balance table without what the lead elements of a bulk move.
+func c09Snapshot(store *enginesim.ModelStore) map[string]string {
+	out := store.FoldNow().Snapshot()
+	for k := range out {
+		if strings.HasSuffix(k, "/"+c09LeadAsset) {
+			delete(out, k)
+		}
+	}
+	return out
+}
+
 func c09FromTx(tx *ledger.Transaction) c09Response {
 	r := c09Response{OK: true, Metadata: map[string]string{}, Ref: tx.Reference, TS: tx.Timestamp.Format(ledger.DateFormat), ID: tx.ID.String()}
 	for _, p := range tx.Postings {
@@ -88,7 +103,7 @@ func c09FromJSON(raw json.RawMessage, idField string) (c09Response, error) {
 
 func TestC09(t *testing.T) {
 	c := evid.New("C09")
-	c.Rule = "lists of 1-8 postings: accounts from the full address grammar (segments with - _ :, world on either side, self-transfers), assets from the full asset grammar, amounts {0,1,..,2^63-1,2^63,2^64,10^k,random >64-bit}, repeated accounts and repeated (amount, asset) pairs, chains where posting k spends what posting k-1 delivered; metadata, reference, explicit timestamps (any zone, 0-9 fractional digits) or none; starting balances seeded by funding transactions; invalid variants (negative amount, malformed address or asset, one bad posting in the middle, insufficient funds). Four entry points over a real Commander + model store: Commander.CreateTransaction(TxToScriptData), POST /v2/{l}/transactions, POST /{l}/transactions (v1), a CREATE_TRANSACTION bulk element. Oracle: success => the answer and the single new NEW_TRANSACTION log entry contain exactly the requested postings (no normalisation), metadata, reference and instant (microseconds); failure => error answer, no entry, balances unchanged. Non-trivial = >=3 postings with a repeated account or repeated monetary, or a chain, or a zero / >64-bit amount; distinct by (entry point, postings, balances)."
+	c.Rule = "lists of 1-8 postings: accounts from the full address grammar (segments with - _ :, world on either side, self-transfers), assets from the full asset grammar, amounts {0,1,..,2^63-1,2^63,2^64,10^k,random >64-bit}, repeated accounts and repeated (amount, asset) pairs, chains where posting k spends what posting k-1 delivered; metadata, reference, explicit timestamps (any zone, 0-9 fractional digits) or none; starting balances seeded by funding transactions; invalid variants (negative amount, malformed address or asset, one bad posting in the middle, insufficient funds). Four entry points over a real Commander + model store: Commander.CreateTransaction(TxToScriptData), POST /v2/{l}/transactions, POST /{l}/transactions (v1), a CREATE_TRANSACTION bulk element (which follows 0-2 other CREATE_TRANSACTION elements with metadata, reference and timestamp of their own: nothing of theirs may reach it, a request without reference is never answered CONFLICT, a request without timestamp never carries another element's). Oracle: success => the answer and the single new NEW_TRANSACTION log entry contain exactly the requested postings (no normalisation), metadata, reference and instant (microseconds); failure => error answer, no entry, balances unchanged. Non-trivial = >=3 postings with a repeated account or repeated monetary, or a chain, or a zero / >64-bit amount; distinct by (entry point, postings, balances)."
 	c.Assumptions = []string{"the PostgreSQL store is replaced by the model store (harness/enginesim); one request at a time"}
 	runProp(t, c, func(rt *rapid.T) {
 		store, commander, stop := enginesim.Standalone()
@@ -119,7 +134,7 @@ func TestC09(t *testing.T) {
 				seeded++
 			}
 		}
-		before := store.FoldNow().Snapshot()
+		before := c09Snapshot(store)
 		// the request
 		n := rapid.IntRange(1, 8).Draw(rt, "nPostings")
 		var ps []c09Posting
@@ -213,6 +228,7 @@ func TestC09(t *testing.T) {
 		}
 		router := httpsim.NewRouter(be, false)
 		var resp c09Response
+		nLead, bulkBody, bulkErrorCode := 0, "", ""
 		hdr := map[string]string{"Content-Type": "application/json"}
 		switch entry {
 		case "commander":
@@ -265,9 +281,48 @@ func TestC09(t *testing.T) {
 				resp.Status, resp.Raw = rec.Code, rec.Body.String()
 			}
 		case "bulk":
-			b, _ := json.Marshal([]map[string]any{{"action": "CREATE_TRANSACTION", "data": json.RawMessage(bodyJSON)}})
+			// the element under test may follow other CREATE_TRANSACTION elements of the same request, each with
+			// metadata, reference and timestamp of its own: nothing of theirs may end up in it
+			var elems []map[string]any
+			if assets[0] != c09LeadAsset && assets[1] != c09LeadAsset {
+				nLead = rapid.IntRange(0, 2).Draw(rt, "nLead")
+			}
+			for i := 0; i < nLead; i++ {
+				lead := map[string]any{"postings": []jp{{"world", fmt.Sprintf("zz_leadsink:%d", i), c09LeadAsset, big.NewInt(int64(7 + i))}}}
+				if rapid.Bool().Draw(rt, "leadMeta") {
+					lead["metadata"] = map[string]string{fmt.Sprintf("lead.%d", i): "x"}
+				}
+				if rapid.Bool().Draw(rt, "leadRef") {
+					lead["reference"] = fmt.Sprintf("lead.ref.%d", i)
+				}
+				if rapid.Bool().Draw(rt, "leadTS") {
+					lead["timestamp"] = c09LeadTS(i)
+				}
+				elems = append(elems, map[string]any{"action": "CREATE_TRANSACTION", "data": lead})
+			}
+			elems = append(elems, map[string]any{"action": "CREATE_TRANSACTION", "data": json.RawMessage(bodyJSON)})
+			b, _ := json.Marshal(elems)
+			bulkBody = string(b)
 			rec := httpsim.Serve(router, "POST", "/api/ledger/v2/l1/_bulk", hdr, string(b))
 			resp = c09Response{Status: rec.Code, Raw: rec.Body.String()}
+			{
+				var env struct {
+					Data []struct {
+						ResponseType string `json:"responseType"`
+						ErrorCode    string `json:"errorCode"`
+					} `json:"data"`
+				}
+				_ = json.Unmarshal(rec.Body.Bytes(), &env)
+				for i := 0; i < nLead; i++ {
+					if i >= len(env.Data) || env.Data[i].ResponseType != "CREATE_TRANSACTION" {
+						harnessError(rt, "lead element %d of the bulk did not succeed: %s", i, clip(rec.Body.String()))
+					}
+				}
+				seeded += nLead
+				if len(env.Data) == nLead+1 {
+					bulkErrorCode = env.Data[nLead].ErrorCode
+				}
+			}
 			if rec.Code < 300 {
 				var env struct {
 					Data []struct {
@@ -276,8 +331,8 @@ func TestC09(t *testing.T) {
 					} `json:"data"`
 				}
 				_ = json.Unmarshal(rec.Body.Bytes(), &env)
-				if len(env.Data) == 1 && env.Data[0].ResponseType == "CREATE_TRANSACTION" {
-					r, err := c09FromJSON(env.Data[0].Data, "id")
+				if len(env.Data) == nLead+1 && env.Data[nLead].ResponseType == "CREATE_TRANSACTION" {
+					r, err := c09FromJSON(env.Data[nLead].Data, "id")
 					if err != nil {
 						violation(rt, c, "C09/response-undecodable", "bulk answered with a body that does not decode: %v: %s", err, clip(rec.Body.String()))
 						return
@@ -312,18 +367,24 @@ func TestC09(t *testing.T) {
 			}
 		}
 		labels := []string{"entry:" + entry, fmt.Sprintf("ok:%v", resp.OK)}
+		if entry == "bulk" {
+			labels = append(labels, fmt.Sprintf("bulk-lead-elements:%d", nLead))
+		}
 		if invalid != "" {
 			labels = append(labels, "invalid:"+invalid)
 		}
 		if chain {
 			labels = append(labels, "chain")
 		}
-		c.Case(evid.Key(entry, key.String(), fmt.Sprint(before), ref, tsText), (n >= 3 && repeated) || chain || special, labels, func() any {
+		c.Case(evid.Key(entry, fmt.Sprint(nLead), key.String(), fmt.Sprint(before), ref, tsText), (n >= 3 && repeated) || chain || special, labels, func() any {
 			return map[string]any{"entry": entry, "request": json.RawMessage(bodyJSON), "balancesBefore": before, "answer": clip(resp.Raw), "ok": resp.OK}
 		})
 		fail := func(sig, format string, args ...any) {
 			if c.IsKnown(sig) {
 				return
+			}
+			if bulkBody != "" {
+				rt.Logf("bulk body: %s", clip(bulkBody))
 			}
 			rt.Logf("entry=%s request=%s\nbalances before: %v\nanswer (%d): %s", entry, clip(string(bodyJSON)), before, resp.Status, clip(resp.Raw))
 			violation(rt, c, sig, format, args...)
@@ -333,7 +394,11 @@ func TestC09(t *testing.T) {
 				fail("C09/rejected-but-committed", "the request was rejected but %d log entr(y/ies) were written", newEntries)
 				return
 			}
-			if fmt.Sprint(store.FoldNow().Snapshot()) != fmt.Sprint(before) {
+			if bulkErrorCode == "CONFLICT" && ref == "" {
+				fail("C09/reference", "a request without a reference was refused with CONFLICT")
+				return
+			}
+			if fmt.Sprint(c09Snapshot(store)) != fmt.Sprint(before) {
 				fail("C09/rejected-but-balances-changed", "the request was rejected but balances changed")
 			}
 			if strings.HasPrefix(resp.Raw, "panic: ") {
@@ -374,6 +439,16 @@ func TestC09(t *testing.T) {
 			if got.Ref != ref {
 				fail("C09/reference", "the %s carries reference %q, the request %q", what, got.Ref, ref)
 				return
+			}
+			if tsText == "" {
+				// nothing supplied: the engine dates the transaction itself -- never with the instant of another element
+				for i := 0; i < nLead; i++ {
+					lt, _ := ledger.ParseTime(c09LeadTS(i))
+					if have, err := ledger.ParseTime(got.TS); err == nil && have.Equal(lt) {
+						fail("C09/timestamp", "the %s carries timestamp %s, which is the timestamp of element %d of the same bulk; the request supplied none", what, got.TS, i)
+						return
+					}
+				}
 			}
 			if tsText != "" {
 				want, _ := ledger.ParseTime(tsText)
